@@ -180,7 +180,10 @@ func grid2Case(c *hlib.Ctx, md mode) {
 	y0, y1 := bounds(c, md)
 	f := genTabN(c, md, []float64{x0, y0}, []float64{x1, y1})
 	xs, ys, recs := stopsFor(c, md, 4), stopsFor(c, md, 4), c.Rng.Intn(3)
-	dir := pick(c, "max", "min")
+	grid2Run(c, md, pick(c, "max", "min"), xs, ys, recs, x0, y0, x1, y1, f)
+}
+
+func grid2Run(c *hlib.Ctx, md mode, dir string, xs, ys, recs int, x0, y0, x1, y1 float64, f tabFnN) {
 	args := join(dir, itoa(xs), itoa(ys), itoa(recs), md.nums(x0, y0, x1, y1), f.args(md))
 	emit(c, md, "g2", args, func() string {
 		var trace []float64
@@ -218,7 +221,10 @@ func grid3Case(c *hlib.Ctx, md mode) {
 	z0, z1 := bounds(c, md)
 	f := genTabN(c, md, []float64{x0, y0, z0}, []float64{x1, y1, z1})
 	xs, ys, zs, recs := stopsFor(c, md, 2), stopsFor(c, md, 3), stopsFor(c, md, 2), c.Rng.Intn(3)
-	dir := pick(c, "max", "min")
+	grid3Run(c, md, pick(c, "max", "min"), xs, ys, zs, recs, x0, y0, z0, x1, y1, z1, f)
+}
+
+func grid3Run(c *hlib.Ctx, md mode, dir string, xs, ys, zs, recs int, x0, y0, z0, x1, y1, z1 float64, f tabFnN) {
 	args := join(dir, itoa(xs), itoa(ys), itoa(zs), itoa(recs), md.nums(x0, y0, z0, x1, y1, z1), f.args(md))
 	emit(c, md, "g3", args, func() string {
 		var trace, vals []float64
